@@ -6,7 +6,8 @@ NOTES = ("Static analysis only: every verdict is computed from /repo's current s
          "See DESIGN.md; known_findings.jsonl lists repaired defects (fixed:) and any recorded findings.")
 
 STATIC_NOTE = ("Trusted base: rustc nightly MIR construction and callee resolution, the mirfacts driver, the rule engine. "
-               "The check decides the structural clauses named in the evidence explanation, for all inputs/paths at once; ")
+               "The check decides the structural clauses named in the evidence explanation, for all inputs/paths at once, and re-decides "
+               "the clauses of other properties that this one rests on (instances keyed uses-<ID>.<rule>; graph in DESIGN.md 6.8); ")
 
 
 def claim(pid, category, text, note, technique, design_ref):
